@@ -387,6 +387,39 @@ func evalC02Upgrade(c C02UpgradeCase) *h.Finding {
 
 func init() { h.RegisterReplayer("c02-upgrade", evalC02Upgrade) }
 
+// ---- a silence longer than ReadTimeout inside the message -------------------------------------------------------------
+
+type C02SilenceCase struct {
+	Mode string `json:"mode"`
+	Cut  int    `json:"cut"` // octets of the message that arrive before the silence
+}
+
+const c02SilenceMsg = "first line\r\nMAIL FROM:<bait@x.example>\r\nRCPT TO:<bait@x.example>\r\nlast line\r\n"
+
+// evalC02Silence: ReadTimeout one minute; after Cut octets of the message the peer is silent for five minutes and then
+// sends the rest. Whatever the server makes of the timeout, the rest of the message is message text or nothing at all:
+// its lines are never executed as commands.
+func evalC02Silence(c C02SilenceCase) *h.Finding {
+	cfg, be := modeConfig(c.Mode)
+	cfg.ReadTO, cfg.WriteTO = time.Minute, time.Minute
+	pro := hello(c.Mode) + "MAIL FROM:<ok@a.example>\r\nRCPT TO:<ok@b.example>\r\nDATA\r\n"
+	segs := [][]byte{[]byte(pro + c02SilenceMsg[:c.Cut]), []byte(c02SilenceMsg[c.Cut:] + ".\r\nNOOP\r\n")}
+	cfg.LongPauseBefore = 2
+	o := h.RunS(cfg, be, segs, h.TermEOF)
+	desc := fmt.Sprintf("mode=%s: %d octets of the message, five minutes of silence (ReadTimeout 1m), then the rest", c.Mode, c.Cut)
+	if f := o.Sanity("c02", desc); f != nil {
+		return f
+	}
+	for _, e := range o.Trace {
+		if strings.Contains(e.Arg, "bait@") {
+			return h.F("c02-bait-executed", "%s: message text was executed as a command: %s(%s); replies %s", desc, e.Kind, e.Arg, o.Codes())
+		}
+	}
+	return nil
+}
+
+func init() { h.RegisterReplayer("c02-silence", evalC02Silence) }
+
 func C02(tier string) int {
 	run := h.NewRun("C02", tier, "exploration", "", 20*time.Minute)
 	maxTok := 3
@@ -394,7 +427,7 @@ func C02(tier string) int {
 		maxTok = 4
 	}
 	run.Rule = fmt.Sprintf("messages = all sequences of <=%d tokens from %q, terminated by CRLF.CRLF and followed by pipelined marker commands; x backend {reads all, 0, 1, n/2 octets} x {accept, reject} x size limit {none, n/2, n, n+10} x {SMTP, LMTP plain backend, LMTP per-recipient backend} x segmentation {one segment, one octet per segment, every 2-split from 4 octets before to 6 after the end marker; one segment also with MaxLineLength 8192, i.e. above the read-buffer size; every 2-split also from a SLOW peer: 40 virtual seconds of silence in the middle, WriteTimeout 10 s, ReadTimeout 30 min}. Distinct by construction; non-trivial = message contains a bait command or a terminator look-alike. Plus lines of 4090..12288 octets (around the multiples of the 4096-octet buffer), in the middle of the message and as its last line in front of the end marker, with a backend that returns early (after 0, 4, 10 octets), the backend verdict io.ErrUnexpectedEOF on a live connection, and messages with a line longer than MaxLineLength at 4 positions, in one segment, per octet, in every 2-split of the conversation and with the message in reads of its own (cut at every position, the last read ending exactly behind the end marker) (refused and closed, or the message still ends at its end marker). Oracle: no bait address reaches the backend; replies and backend calls after the final DATA reply equal those the lines after the first true end marker (ref.Unstuff) produce on a connection that just finished a trivial transaction (differential).", maxTok, c02Tokens)
-	run.Rule += " Also: a message transferred in plaintext (DATA, BDAT, both), STARTTLS with a real handshake, then each of 5 messages with bait and look-alikes via DATA / BDAT LAST inside TLS with NOOP and MAIL pipelined behind it, x 3 modes: the message ends at its own end marker, the commands behind it run, none of its text does."
+	run.Rule += " Also: ReadTimeout 1 min and five minutes of silence at every offset of a message with bait lines, then the rest (3 modes): no line of the message is executed. Also: a message transferred in plaintext (DATA, BDAT, both), STARTTLS with a real handshake, then each of 5 messages with bait and look-alikes via DATA / BDAT LAST inside TLS with NOOP and MAIL pipelined behind it, x 3 modes: the message ends at its own end marker, the commands behind it run, none of its text does."
 	run.Assumptions = []string{"reply codes of the DATA command itself are judged by C04/C06, not here", "the reference run (same server code, trivial message) defines what the follow-up commands do; only its agreement with the run under test is judged"}
 	var msgs [][]int
 	var rec func(cur []int)
@@ -545,6 +578,17 @@ func C02(tier string) int {
 						run.Outcome("upgrade-ok")
 					}
 				}
+			}
+		}
+	}
+	for _, mode := range modes {
+		for cut := 0; cut <= len(c02SilenceMsg); cut++ {
+			c := C02SilenceCase{Mode: mode, Cut: cut}
+			f := evalC02Silence(c)
+			run.Eval(true)
+			if f != nil {
+				run.Violate("c02-silence", c, f, func() *h.Finding { return evalC02Silence(c) })
+				run.Outcome("violation:" + f.Sig)
 			}
 		}
 	}
